@@ -50,7 +50,7 @@ def run(ctx):
     ctx.build_driver("e1")
     corr_broken = []
     # --- codec correspondence (white-box) -----------------------------------------------------
-    binp = ctx.go_test_binary("nsqd", ["e1/wire_test.go", "e1/num_test.go", "e1/timing_test.go"], "e1c07")
+    binp = ctx.go_test_binary("nsqd", ["e1/e1_helpers_test.go", "e1/wire_test.go"], "e1c07")
     if not binp:
         ctx.broken_ties.append("harness e1/wire_test.go does not compile against the current tree")
         corr_broken.append("wire harness build")
